@@ -20,7 +20,7 @@ package bttest
 // ---------------------------------------------------------------------------------------------
 
 //@ func (s *server) DeleteTable
-//@   property C14 C20
+//@   property C14 C08 C20
 //@   requires req != nil
 //@   modifies mapof(s.tables)
 //@   ensures !old(req.Name in s.tables) ==> result0 == nil && result1 != nil && uf_grpcCode(result1) == codes.NotFound
@@ -55,7 +55,7 @@ package bttest
 //@   loop 1 invariant forall k string :: visited1[k] && hasPrefix(k, req.Parent + "/tables/") ==> exists i :: 0 <= i < len(res.Tables) && res.Tables[i].Name == k
 
 //@ func (s *server) CreateTable
-//@   property C14 C20
+//@   property C14 C08 C20
 //@   requires req != nil
 //@   modifies mapof(s.tables), req.Table, req.Table.Name, req.Table.ColumnFamilies
 //@   modifies ghost(btMetaOps)
@@ -106,7 +106,7 @@ package bttest
 // are unchanged (frame obligations). The contents of the row store behind the Rows interface have no abstract model
 // in bttest_ifaces.spec, so "exactly the rows with the prefix" is stated on the list of keys handed to Rows.Delete.
 //@ func (s *server) DropRowRange
-//@   property C14 C20
+//@   property C14 C08 C20
 //@   requires req != nil
 //@   ensures !old(req.Name in s.tables) ==> result0 == nil && result1 != nil && uf_grpcCode(result1) == codes.NotFound
 //@   ensures old(req.Name in s.tables) && !dropAllReq(req) && !dropPrefixReq(req) ==> result0 == nil && result1 != nil
@@ -139,7 +139,7 @@ package bttest
 // untouched). The two bigtablepb heaps are in the footprint only because the contracts of scrubRow / updateRow
 // (used by the purge closure on rows freshly read from the store) declare them wholesale.
 //@ func (s *server) ModifyColumnFamilies
-//@   property C14 C20
+//@   property C14 C08 C20
 //@   requires req != nil
 //@   modifies s.tables[req.Name].def.ColumnFamilies, heap("F:bigtablepb.Family.Columns"), heap("T:*bigtablepb.Column")
 //@   modifies ghost(btReadEpoch), ghost(btReadRow), ghost(btMetaOps)
